@@ -273,6 +273,36 @@ static void history(vf_rng *r)
 			VF_CHECK(rc >= 0, "model:remove:refused", "%s returned %d", what, rc);
 			for (int j = 0; j < nu; j++) U[j].exists = U[j].hasval = 0;
 		}
+		else if (k < 96) {
+			/* assignment the store refuses: value without type, or with a type id nobody registered.
+			 * Whatever the path (present, absent, absent with absent intermediate elements):
+			 * the map must be exactly as before. */
+			mpt::path p(pbuf, sep, 0);
+			mpt::value v;
+			static const int dummy = 0;
+			int untyped = vf_chance(r, 1, 2);
+			if (!untyped) v.set(0xfe, &dummy);
+			snprintf(what, sizeof(what), "assign('%s', %s value)%s", show(x), untyped ? "untyped" : "unregistered-type", x->exists ? "" : " [absent]");
+			vf_log("%s", what);
+			vf_at("config::root::assign");
+			int rc = root.assign(&p, &v);
+			if (rc < 0) {
+				vf_count("config::root::assign:refused", 1);
+				if (!x->exists) {
+					int newinner = 0;
+					for (int j = 0; j < nu; j++) if (j != t && !U[j].exists && is_prefix(&U[j], x)) newinner = 1;
+					vf_count("state:refused-on-absent-path", 1);
+					if (newinner) vf_count("state:refused-with-absent-intermediate", 1);
+				}
+				/* model untouched; the audit below decides */
+			} else {
+				/* accepted in some other representation: take it out again to stay in step */
+				vf_count("config::root::assign:odd-value-accepted", 1);
+				for (int j = 0; j < nu; j++) if (is_prefix(&U[j], x)) U[j].exists = 1;
+				root.remove(&p);
+				m_remove(t);
+			}
+		}
 		else {
 			snprintf(what, sizeof(what), "query only");
 		}
